@@ -24,11 +24,16 @@ type Op struct {
 	CloseFail bool `json:"closefail,omitempty"`
 	// CtxDone: the call is made with an already cancelled context (RemoveNode, RemovePipelineAndNodes).
 	CtxDone bool `json:"ctxdone,omitempty"`
+	// SameObj: regnode offers the very node object that is registered under the id already (if any).
+	SameObj bool `json:"sameobj,omitempty"`
 }
 
 func (o Op) String() string {
 	switch o.Kind {
 	case "regnode":
+		if o.SameObj {
+			return fmt.Sprintf("RegisterNode(%s,the object registered under it,%s)", o.ID, o.Policy)
+		}
 		return fmt.Sprintf("RegisterNode(%s,type=%d,%s)", o.ID, o.NT, o.Policy)
 	case "regpipe":
 		return fmt.Sprintf("RegisterPipeline(%s/%s,[%s],%s)", o.Type, o.Pid, strings.Join(o.IDs, ","), o.Policy)
@@ -97,6 +102,9 @@ func (w *World) Apply(op Op, style NodeStyle) Outcome {
 	switch op.Kind {
 	case "regnode":
 		n := w.newNode(op.ID, op.NT, style)
+		if cur, ok := w.M.nodes[op.ID]; ok && op.SameObj {
+			n = cur.obj
+		}
 		if op.CloseFail {
 			n.CloseErr = &NodeErr{Obj: n.Obj, Prov: "close"}
 		}
